@@ -80,7 +80,7 @@ class Ctx:
     """One path of one exploration."""
 
     def __init__(self, prefix=(), *, backend="int", mul="nia", branch_timeout_ms=10000,
-                 max_decisions=400):
+                 max_decisions=400, cache=None):
         self.prefix = list(prefix)
         self.taken = []          # decisions actually taken at genuine forks
         self.pc = []             # z3 Bool terms (path condition, incl. assumptions)
@@ -96,6 +96,8 @@ class Ctx:
         self.ring = None         # set by symx.ring
         self.forks = 0
         self.implied = 0
+        self.cache = cache
+        self.ev_idx = 0
         self.mul_pairs = set()
         self.side = []           # bit-vector backend: exact no-overflow conditions of this path
 
@@ -137,6 +139,23 @@ class Ctx:
         if z3.is_false(c):
             return False
         c = cond          # keep the literal as built: rewriting inside uninterpreted-function arguments breaks congruence
+        # re-execution cache: the same condition after the same decisions was classified on an earlier path
+        key = (tuple(self.taken), self.ev_idx)
+        self.ev_idx += 1
+        hit = self.cache.get(key) if self.cache is not None else None
+        if hit is not None and hit[0].eq(c):
+            kind = hit[1]
+            if kind == "implied_false":
+                self.pc.append(z3.Not(c))
+                self.solver.add(z3.Not(c))
+                return False
+            if kind == "implied_true":
+                self.pc.append(c)
+                self.solver.add(c)
+                return True
+            if hit[2]:
+                self.feas_unknown = True
+            return self._fork(c)
         self.solver.push()
         self.solver.add(c)
         r_t = timed_check(self.solver)
@@ -145,6 +164,8 @@ class Ctx:
             self.implied += 1
             self.pc.append(z3.Not(c))
             self.solver.add(z3.Not(c))
+            if self.cache is not None:
+                self.cache[key] = (c, "implied_false", False)
             return False
         self.solver.push()
         self.solver.add(z3.Not(c))
@@ -154,9 +175,17 @@ class Ctx:
             self.implied += 1
             self.pc.append(c)
             self.solver.add(c)
+            if self.cache is not None:
+                self.cache[key] = (c, "implied_true", False)
             return True
-        if r_t == "unknown" or r_f == "unknown":
+        unk = (r_t == "unknown" or r_f == "unknown")
+        if unk:
             self.feas_unknown = True
+        if self.cache is not None:
+            self.cache[key] = (c, "fork", unk)
+        return self._fork(c)
+
+    def _fork(self, c):
         # genuine fork
         i = len(self.taken)
         if i >= self.max_decisions:
@@ -218,7 +247,8 @@ class Path:
 def explore(run, *, max_paths=4000, ctx_kwargs=None, on_path=None):
     """Explore every feasible path of run(ctx).  on_path(path) is called inside the
     still-active context (so harness code can prove things about the result)."""
-    ctx_kwargs = ctx_kwargs or {}
+    ctx_kwargs = dict(ctx_kwargs or {})
+    ctx_kwargs.setdefault("cache", {})
     work = [[]]
     paths = []
     while work:
